@@ -7,6 +7,8 @@ import (
 	"math/big"
 	"strings"
 
+	sdkmath "cosmossdk.io/math"
+
 	collectives "github.com/KiraCore/sekai/x/collectives"
 	collectiveskeeper "github.com/KiraCore/sekai/x/collectives/keeper"
 	colltypes "github.com/KiraCore/sekai/x/collectives/types"
@@ -294,6 +296,71 @@ func (c *collH) withdraw(t int64, who int, name string, history []string) string
 	return out
 }
 
+// spellingStrand: account 5 spells its bech32 address in upper case in every message (valid bech32 of the same account),
+// account 7 bonds next to it. 5 withdraws: paid once; every repeated withdrawal is refused and pays nothing; 7's bonds stay.
+func (c *collH) spellingStrand(T int64, minB int64) {
+	h, r := c.h, c.h.r
+	r.Mark("collectives: address spelling")
+	ck, bk := h.w.app.CollectivesKeeper, h.w.app.BankKeeper
+	np := h.w.app.CustomGovKeeper.GetNetworkProperties(h.ctx)
+	if c.create(T, 6, "sp", []sdk.Coin{c18coin("ukex", minB)}, true, nil, nil, 1, np.MinCollectiveClaimPeriod) != "ok" {
+		return
+	}
+	up := strings.ToUpper(h.acc[5].String())
+	if a, err := sdk.AccAddressFromBech32(up); err != nil || !a.Equals(h.acc[5]) {
+		r.Count("coll:spelling:upper-case-not-accepted")
+		return
+	}
+	run := func(f func(x sdk.Context) error, t int64) error { return withCache(h.at(t), f) }
+	bond := func(sender string, coins sdk.Coins) error {
+		m := &colltypes.MsgBondCollective{Sender: sender, Name: "sp", Bonds: coins}
+		if err := m.ValidateBasic(); err != nil {
+			return err
+		}
+		return run(func(x sdk.Context) error { _, e := c.ms.ContributeCollective(sdk.WrapSDKContext(x), m); return e }, T)
+	}
+	e1 := bond(up, sdk.NewCoins(c18coin("ueth", 40)))
+	e2 := bond(h.acc[7].String(), sdk.NewCoins(c18coin("ueth", 60)))
+	r.Count(fmt.Sprintf("coll:spelling:bond:%v:%v", e1 == nil, e2 == nil))
+	if e1 != nil || e2 != nil {
+		return
+	}
+	col := ck.GetCollective(h.ctx, "sp")
+	held := func() sdkmath.Int { return bk.GetBalance(h.ctx, col.GetCollectiveAddress(), "ueth").Amount }
+	bal := func(i int) sdkmath.Int { return bk.GetBalance(h.ctx, h.acc[i], "ueth").Amount }
+	b5 := bal(5)
+	paid := 0
+	for k := 0; k < 3; k++ {
+		m := &colltypes.MsgWithdrawCollective{Sender: up, Name: "sp"}
+		err := run(func(x sdk.Context) error { _, e := c.ms.WithdrawCollective(sdk.WrapSDKContext(x), m); return e }, T+int64(k)+1)
+		if err == nil {
+			paid++
+		}
+		r.Case(fmt.Sprintf("coll-spelling/withdraw/%d/%v", k, err == nil), true)
+	}
+	got := bal(5).Sub(b5)
+	if paid != 1 || !got.Equal(sdkmath.NewInt(40)) || held().LT(sdkmath.NewInt(60)) {
+		r.Fail("C18/coll-withdraw/paid-more-than-once", fmt.Sprintf("a contributor that spells its address %s bonded 40ueth next to a contributor with 60ueth: %d of 3 withdrawals were accepted, it received %sueth and the collective account holds %sueth", up, paid, got, held()),
+			[]string{"coll spelling strand: bond 40ueth (upper-case sender), bond 60ueth (other account), withdraw x3 (upper-case sender)"})
+	}
+	// the other contributor is still paid in full
+	b7 := bal(7)
+	m7 := &colltypes.MsgWithdrawCollective{Sender: h.acc[7].String(), Name: "sp"}
+	err7 := run(func(x sdk.Context) error { _, e := c.ms.WithdrawCollective(sdk.WrapSDKContext(x), m7); return e }, T+5)
+	if paid == 1 && (err7 != nil || !bal(7).Sub(b7).Equal(sdkmath.NewInt(60))) {
+		r.Fail("C18/coll-withdraw/other-contributor-not-paid", fmt.Sprintf("the second contributor bonded 60ueth; its withdrawal: %v, received %sueth", err7, bal(7).Sub(b7)), nil)
+	}
+	var left []string
+	for _, cc := range ck.GetAllCollectiveContributers(h.ctx) {
+		if a, err := sdk.AccAddressFromBech32(cc.Address); err == nil && cc.Name == "sp" && a.Equals(h.acc[5]) {
+			left = append(left, cc.Address)
+		}
+	}
+	if len(left) != 0 {
+		r.Fail("C18/coll-withdraw/record-left-behind", fmt.Sprintf("after its withdrawal the contributor still has the record(s) %v", left), nil)
+	}
+}
+
 // accountsDrifted: before the op, did the collective / donation accounts hold something else than the sum of the
 // contributors' rounded portions (the effect of an earlier rounding mismatch of calcPortion, possibly another contributor's)?
 func (c *collH) accountsDrifted(name string, b collSnap) bool {
@@ -562,6 +629,10 @@ func (h *h18) collScenarios() {
 	c.donate(T, 6, "k2", 0, dec("0.5"), true)
 	c.withdraw(T+1, 6, "k2", kf)
 	c.withdraw(T+3, 6, "k1", kf)
+
+	// a contributor that writes its address in the other (upper-case) bech32 spelling: same account, the messages are
+	// signed by it; its bonds come back once
+	c.spellingStrand(T, minB)
 
 	// donations leave only through the send-donation proposal
 	r.Mark("collectives: donations")
